@@ -226,7 +226,8 @@ impl Check for C03 {
             return json!({"label": case.label(), "case": case_json(&case), "skip": "unmodelled"});
         };
         let world = case.login.is_none();
-        let mut muts = field_mutations(&f);
+        let mut muts = compressed_mutations(&f);
+        muts.extend(field_mutations(&f));
         muts.extend(truncations(&f, world));
         let (m, enumerated) = match slot {
             Some(s) if (s as usize) < muts.len() => (muts[s as usize].clone(), true),
